@@ -219,6 +219,42 @@ PROPS = {
         "floors": {"safe/event-commit": 100, "safe/event-zaprm": 10, "safe/event-boltrm": 20, "safe/recovered": 8, "unsafe/recovered": 3},
         "thorough_shards": 8,
     },
+    "C14": {
+        "harness": "c14", "driver": "c14",
+        "lean_modules": ["BleveModel.Props.Snapshot", "BleveModel.Props.C04", "BleveModel.Props.C12", "BleveModel.Props.C14"],
+        "rule": ("on-disk scorch sources (safe and unsafe batches, 1-3 snapshots kept, 1-3 persister workers, small merge plan) "
+                 "written by two writers with forced merges every 120 ms and the purger running; a copier calls CopyTo at random "
+                 "moments (the numbers of batches acknowledged per writer sampled just before, submitted just after). Every copy: "
+                 "CopyTo must succeed; its root.bolt and *.zap listing are checked against the model's copyOf (one snapshot, "
+                 "exactly its files, loadable); it is opened and read through one reader and judged by the Lean monitor "
+                 "History.check (whole batches, covers what was acknowledged before the copy began, successive copies never go "
+                 "back); it holds no batch submitted after CopyTo returned; it accepts a write. The source is observed by a "
+                 "C04-style client throughout and compared with the full history at the end. non-trivial = every observation"),
+        "trusted_base": COMMON_TB + ["bbolt for reading the copy's root.bolt; os.ReadDir"],
+        "assumptions": ["partial: atomicity of capturing the root under the lock is exercised by the concurrent runs, not proved", LEVEL_NOTE],
+        "floors": {"safe/copy-content": 10, "unsafe/copy-content": 5, "safe/source-obs": 100},
+        "thorough_shards": 6,
+    },
+    "C11": {
+        "harness": "c11", "driver": "c11", "race": True,
+        "lean_modules": ["BleveModel.Props.C11"],
+        "rule": ("race-detector build of the harness. Per round a child process opens one index (scorch on disk, scorch in memory, "
+                 "upsidedown over gtreap, upsidedown over boltdb; 300 documents), 6-11 goroutines call Index, Delete, Batch, Search, "
+                 "SearchInContext with 0-3 ms deadlines, Document, DocCount, FieldDict (iterated), Stats/StatsMap, ForceMerge and "
+                 "CopyTo (scorch) in random order; after 60-560 ms two goroutines call Close at the same time; calls keep coming "
+                 "for 15 ms more. Every call is logged with global sequence numbers taken before it starts and after it returns "
+                 "and its result class (ok / closed-index error / context error / refused / other error / panic); the Lean monitor "
+                 "`verdict` judges each: no panic or unexpected error, closed-index error for calls started after Close returned, "
+                 "none for calls that returned before Close was called, exactly one Close succeeds. A data race report, a crash, "
+                 "Close not returning within 30 s or goroutines still alive 2 s after Close are reported with the runtime's output. "
+                 "Cancellation: 40 (400) searches over 3000 documents with contexts cancelled after 0-2 ms or before the call must "
+                 "return ok or the context error within 5 s and the index must answer afterwards. non-trivial = every call"),
+        "trusted_base": COMMON_TB + ["Go race detector and scheduler; runtime.NumGoroutine / Stack"],
+        "assumptions": ["partial: data races, panics, deadlocks and leaks are runtime facts that the stress exercises and the race detector "
+                        "observes on the schedules that occur; the theorems cover the lifecycle protocol", LEVEL_NOTE],
+        "floors": {"scorch-disk/close": 2, "scorch-mem/call-search": 20, "upsidedown-boltdb/call-index": 20, "scorch-mem/cancel-ctx": 10},
+        "thorough_shards": 4, "parallel": 2, "timeout_quick": 1500,
+    },
     "C12": {
         "harness": "c12", "driver": "c12",
         "lean_modules": ["BleveModel.Props.C03", "BleveModel.Props.C12"],
